@@ -152,6 +152,21 @@ def _project_carriers(F, t):
     return tuple(_project_carriers(F, x) if isinstance(x, tuple) else x for x in t)
 
 
+_COMPUTING_TRAITS = {"Add", "Sub", "Mul", "Div", "Rem", "Neg", "AddAssign", "SubAssign", "MulAssign", "DivAssign", "RemAssign",
+                     "PartialEq", "PartialOrd", "Ord", "Sum", "Product"}
+_COMPUTING_METHODS = {"checked_add", "checked_sub", "checked_mul", "checked_div", "saturating_add", "saturating_sub", "saturating_mul",
+                      "min", "max", "abs", "cmp", "partial_cmp", "eq", "ne", "lt", "le", "gt", "ge", "sum", "product", "is_zero",
+                      "is_sign_negative", "is_sign_positive", "any", "all", "find", "find_map", "position", "fold", "try_fold", "map",
+                      "filter", "filter_map", "for_each", "reduce", "count", "contains", "binary_search", "round_dp", "normalize"}
+
+
+def _computes(callee):
+    """library callees that compute with, compare or search their argument (as opposed to handing an element or the value on)"""
+    from mir import trait_base
+    ty, tr, m = parse_callee(callee)[:3]
+    return trait_base(tr) in _COMPUTING_TRAITS or m in _COMPUTING_METHODS
+
+
 def prepass_influence(R, rep):
     F = R.F
     d = R.require("dayloop")
@@ -167,7 +182,9 @@ def prepass_influence(R, rep):
             term = rg.arg(it, ai)
             if any(isinstance(x, tuple) and x and x[0] == "call" and x[1] == pre.id for x in subterms(term)):
                 m = parse_callee(u["callee"])[2]
-                ok = m in ("get", "branch", "deref", "as_slice", "from_residual", "index", "len", "drop", "copied", "unwrap_or", "as_ref") \
+                # library combinators (get/copied/unwrap_or*/…) only hand the value on — what becomes of it is followed by the
+                # quantity rule below; the rule is about which *workspace* code receives the pre-pass result
+                ok = (F.body(u["callee"]) is None and not _computes(u["callee"])) \
                     or u["callee"] == R.require("cascade").id or u["callee"].endswith("AcquisitionExtras::new") or u["callee"].endswith("add_acquisition")
                 if not ok:
                     bad.append(u["callee"])
